@@ -62,7 +62,11 @@ RULE = (
     'dtypes over {float64,float32,int64,int32} in any mix; vector3 / linear_transform3 themselves exist only as float64 in scipp '
     '(counted as not evaluable in other dtypes); Q vectors random with norm 0.01..100 1/angstrom; split/reassemble: arrays of rank 0..3 with '
     'sizes 0..3, Qy/Qz with permuted dimension order, and mismatching sizes (missing/extra/renamed dimension, '
-    'different length) for the DimensionError guard. call sequences: 2-4 consecutive calls of hkl_vec_from_Q_vec (same UB object with different R, same UB value in a new '
+    'different length) for the DimensionError guard. operand shapes: wavelength, incident and scattered beam (and Q_vec, UB, R for hkl) get dims independently — 0-d, '
+    'per-pixel, per-run, a dim on the incident beam that the scattered beam lacks and vice versa, outer products, transposed '
+    '(non-contiguous) storage, wavelength with dims of its own — every element of the broadcast result is judged against the '
+    'reference for its own element operands and the result dims must be the union of the operand dims; '
+    'call sequences: 2-4 consecutive calls of hkl_vec_from_Q_vec (same UB object with different R, same UB value in a new '
     'object, same R with different UB, same Q with both different, identical repeat, array chunk then scalars) and of '
     'Q_elements_from_wavelength / ub_matrix_from_u_and_b with shared operand objects: every call is judged against the exact '
     'reference for its own arguments and must be bit-identical when the sequence is executed in reverse order (key '
@@ -521,6 +525,53 @@ def correspond(ctx):
         else:
             ctx.disagree({'op': 'hkl', 'q': [bits(x) for x in q], 'ub': [bits(x) for x in ub.ravel()], 'r': [bits(x) for x in rm.ravel()]},
                          [bits(x) for x in h], o, 'hkl differs by more than 64*(s1^2/(s2 s3))*u*|hkl|')
+    # --- shaped operands (0-d, per-pixel, per-run, extra dims on either side, outer products, transposed storage)
+    shaped, lines = [], []
+    for _ in range(ctx.n(300, 6000)):
+        pattern, sizes, w, bi, bf = gen_q_shapes(rng)
+        res = eval_q_shapes(w, bi, bf)
+        ctx.count('shape:q:' + pattern)
+        if isinstance(res, str):
+            ctx.disagree(q_shape_witness(pattern, sizes, w, bi, bf), res, 'ok', 'kernel raised on shaped operands')
+            continue
+        rdims, rsizes, vals = res
+        want = set(w.dims) | set(bi.dims) | set(bf.dims)
+        if set(rdims) != want:
+            ctx.disagree(q_shape_witness(pattern, sizes, w, bi, bf), rdims, sorted(want), 'result dims are not the union of the operand dims')
+            continue
+        for idx in _all_indices(rdims, rsizes):
+            shaped.append((pattern, sizes, w, bi, bf, idx, vals[tuple(idx[d] for d in rdims)]))
+            lines.append('c08.qel ' + ' '.join(bits(x) for x in (float(w.at(idx)), *bi.at(idx), *bf.at(idx))))
+    for (pattern, sizes, w, bi, bf, idx, got), o in zip(shaped, ctx.driver(lines)):
+        mv_ = [unbits(t) if t != 'nan' else math.nan for t in o.split()]
+        k = 2 * math.pi / float(w.at(idx))
+        ctx.case(('q-shape', pattern, tuple(w.dims), tuple(bi.dims), tuple(bf.dims), tuple(sorted(idx.items())), bits(float(w.at(idx))),
+                  tuple(bits(x) for x in bf.at(idx))), True)
+        if not all(abs(x - y) <= Q_ULPS * U64 * k for x, y in zip(got, mv_)):
+            ctx.disagree(dict(q_shape_witness(pattern, sizes, w, bi, bf), index=idx), [bits(x) for x in got], o,
+                         'element of a shaped evaluation differs from the model on the same element operands')
+    shaped, lines = [], []
+    for _ in range(ctx.n(200, 4000)):
+        pattern, sizes, q, ub, r = gen_hkl_shapes(rng)
+        res = eval_hkl_shapes(q, ub, r)
+        ctx.count('shape:hkl:' + pattern)
+        if isinstance(res, str):
+            ctx.disagree({'op': 'hkl-shape', 'pattern': pattern, 'dims': [q.dims, ub.dims, r.dims]}, res, 'ok', 'kernel raised on shaped operands')
+            continue
+        rdims, rsizes, vals = res
+        if set(rdims) != set(q.dims) | set(ub.dims) | set(r.dims):
+            ctx.disagree({'op': 'hkl-shape', 'pattern': pattern, 'dims': [q.dims, ub.dims, r.dims]}, rdims, 'union', 'result dims')
+            continue
+        for idx in _all_indices(rdims, rsizes):
+            shaped.append((pattern, q, ub, r, idx, vals[tuple(idx[d] for d in rdims)]))
+            lines.append('c08.hkl ' + ' '.join(bits(x) for x in (*q.at(idx), *np.asarray(ub.at(idx)).ravel(), *np.asarray(r.at(idx)).ravel())))
+    for (pattern, q, ub, r, idx, got), o in zip(shaped, ctx.driver(lines)):
+        model = np.array([unbits(t) if t != 'nan' else math.nan for t in o.split()])
+        _, dk = det_cond(np.asarray(r.at(idx)) @ np.asarray(ub.at(idx)))
+        ctx.case(('hkl-shape', pattern, tuple(q.dims), tuple(ub.dims), tuple(r.dims), tuple(sorted(idx.items())), tuple(bits(x) for x in q.at(idx))), True)
+        if not (np.all(np.isfinite(got)) and np.all(np.abs(np.asarray(got) - model) <= 64 * dk * U64 * float(np.linalg.norm(model)))):
+            ctx.disagree({'op': 'hkl-shape', 'pattern': pattern, 'dims': [q.dims, ub.dims, r.dims], 'index': idx},
+                         [bits(x) for x in got], o, 'element of a shaped evaluation differs from the model')
     # --- call sequences of hkl_vec_from_Q_vec against the (pure) model: shared UB / R / Q objects
     seqs, lines = [], []
     for _ in range(ctx.n(300, 6000)):
@@ -1144,6 +1195,250 @@ def _oracle_sequences(ctx, n):
                 break
 
 
+# ---- operand shapes ----------------------------------------------------------------------------
+
+class Operand:
+    """an operand with labelled dims: numpy values (dims..., item shape), the scipp variable (possibly a transposed,
+    non-contiguous view) and element access by dimension label"""
+
+    def __init__(self, dims, sizes, values, var, transposed=False):
+        self.dims, self.sizes, self.values, self.var, self.transposed = list(dims), dict(sizes), values, var, transposed
+
+    def at(self, idx):
+        if not self.dims:
+            return self.values
+        return self.values[tuple(idx[d] for d in self.dims)]
+
+    def witness(self):
+        return {'dims': self.dims, 'shape': [self.sizes[d] for d in self.dims], 'transposed': self.transposed,
+                'values': [bits(x) for x in np.asarray(self.values, dtype=np.float64).ravel()]}
+
+
+def _mk_operand(kind, dims, sizes, values, unit, transposed=False, quats=None):
+    """kind: 'scalar' (wavelength), 'vector', 'matrix', 'rotation' (values = matrices, quats = quaternions)"""
+    import scipp as sc
+
+    shape = [sizes[d] for d in dims]
+    order = list(reversed(dims)) if (transposed and len(dims) >= 2) else list(dims)
+
+    def arrange(a, item_ndim):
+        # store in `order`, then present as a transposed view in `dims`
+        if order == list(dims):
+            return a
+        perm = [dims.index(d) for d in order] + [len(dims) + i for i in range(item_ndim)]
+        return np.ascontiguousarray(np.transpose(a, perm))
+
+    if kind == 'scalar':
+        var = sc.array(dims=order, values=arrange(values, 0), unit=unit) if dims else sc.scalar(float(values), unit=unit)
+    elif kind == 'vector':
+        var = sc.vectors(dims=order, values=arrange(values, 1), unit=unit) if dims else sc.vector(values, unit=unit)
+    elif kind == 'matrix':
+        var = (sc.spatial.linear_transforms(dims=order, values=arrange(values, 2), unit=unit) if dims
+               else sc.spatial.linear_transform(value=values, unit=unit))
+    else:
+        var = sc.spatial.rotations(dims=order, values=arrange(quats, 1)) if dims else sc.spatial.rotation(value=quats)
+    if dims and order != list(dims):
+        var = var.transpose(dims)
+    return Operand(dims, sizes, values, var, transposed and len(dims) >= 2)
+
+
+def operand_from_witness(kind, w, unit):
+    sizes = dict(zip(w['dims'], w['shape']))
+    item = {'scalar': (), 'vector': (3,), 'matrix': (3, 3)}[kind]
+    vals = np.array([unbits(x) for x in w['values']]).reshape(tuple(w['shape']) + item)
+    if kind == 'scalar' and not w['dims']:
+        vals = float(vals)
+    return _mk_operand(kind, w['dims'], sizes, vals, unit, w['transposed'])
+
+
+Q_SHAPE_PATTERNS = ['all-0d', 'scattered-per-pixel', 'incident-extra-dim', 'incident-extra-dim', 'scattered-extra-dim',
+                    'outer-product', 'same-dims-transposed', 'wavelength-own-dims', 'random', 'random']
+
+
+def _subset(rng, pool):
+    dims = [d for d in pool if rng.random() < 0.5]
+    rng.shuffle(dims)
+    return dims
+
+
+def gen_q_shapes(rng):
+    """wavelength, incident_beam, scattered_beam with independently chosen dims"""
+    pattern = rng.choice(Q_SHAPE_PATTERNS)
+    sizes = {d: rng.randint(1, 3) for d in ('pixel', 'run', 'wl')}
+    tr = {'w': False, 'bi': False, 'bf': False}
+    if pattern == 'all-0d':
+        dw, di, df = [], [], []
+    elif pattern == 'scattered-per-pixel':
+        dw, di, df = rng.choice([[], ['pixel'], ['wl']]), [], ['pixel']
+    elif pattern == 'incident-extra-dim':       # per-run incident beam, per-pixel (or 0-d) scattered beam
+        dw, di, df = rng.choice([[], ['wl']]), ['run'], rng.choice([['pixel'], []])
+    elif pattern == 'scattered-extra-dim':
+        dw, di, df = [], ['run'], ['run', 'pixel']
+    elif pattern == 'outer-product':
+        dw, di, df = ['wl'], ['run'], ['pixel']
+    elif pattern == 'same-dims-transposed':
+        dw, di, df = rng.choice([[], ['pixel', 'run']]), ['run', 'pixel'], ['pixel', 'run']
+        tr = {'w': rng.random() < 0.5, 'bi': rng.random() < 0.5, 'bf': True}
+    elif pattern == 'wavelength-own-dims':
+        dw, di, df = ['pixel', 'wl'], [], ['pixel']
+        tr['w'] = rng.random() < 0.5
+    else:
+        dw, di, df = _subset(rng, ['pixel', 'run', 'wl']), _subset(rng, ['pixel', 'run']), _subset(rng, ['pixel', 'run'])
+        tr = {k: rng.random() < 0.3 for k in tr}
+
+    def beams(dims):
+        shape = [sizes[d] for d in dims]
+        n = int(np.prod(shape)) if shape else 1
+        a = np.array([beam_pair(rng)[1 + (i % 2)] for i in range(n)]).reshape([*shape, 3])
+        return a if dims else a.reshape(3)
+
+    shape_w = [sizes[d] for d in dw]
+    lam = np.array([lu(rng, 0.01, 100) for _ in range(int(np.prod(shape_w)) if shape_w else 1)]).reshape(shape_w)
+    w = _mk_operand('scalar', dw, sizes, lam if dw else float(lam), 'angstrom', tr['w'])
+    bi = _mk_operand('vector', di, sizes, beams(di), 'm', tr['bi'])
+    bf = _mk_operand('vector', df, sizes, beams(df), 'm', tr['bf'])
+    return pattern, sizes, w, bi, bf
+
+
+def _all_indices(dims, sizes):
+    import itertools
+
+    return [dict(zip(dims, t)) for t in itertools.product(*[range(sizes[d]) for d in dims])]
+
+
+def eval_q_shapes(w, bi, bf):
+    """real kernel on shaped operands → (result dims, {index tuple: [Qx,Qy,Qz]}) or error string"""
+    from scippneutron.conversion import tof as K
+
+    try:
+        r = K.Q_elements_from_wavelength(wavelength=w.var, incident_beam=bi.var, scattered_beam=bf.var)
+    except Exception as e:  # noqa: BLE001
+        return _err(e)
+    rdims = list(r['Qx'].dims)
+    if any(list(r[k].dims) != rdims for k in ('Qy', 'Qz')):
+        return 'err:component-dims'
+    comps = [np.asarray(r[k].values, dtype=np.float64) for k in ('Qx', 'Qy', 'Qz')]
+    sizes = dict(r['Qx'].sizes)
+    return rdims, sizes, {tuple(i[d] for d in rdims): [float(c[tuple(i[d] for d in rdims)]) if rdims else float(c) for c in comps]
+                          for i in _all_indices(rdims, sizes)}
+
+
+def judge_q_shapes(pattern, sizes, w, bi, bf):
+    """→ list of (key, what, extra)"""
+    res = eval_q_shapes(w, bi, bf)
+    if isinstance(res, str):
+        return [('C08:q-raises', f'Q_elements_from_wavelength raised {res} for operand dims {w.dims}/{bi.dims}/{bf.dims}', {})]
+    rdims, rsizes, vals = res
+    want = set(w.dims) | set(bi.dims) | set(bf.dims)
+    if set(rdims) != want or any(rsizes[d] != sizes[d] for d in rdims):
+        return [('C08:q-shape', f'result dims {rdims} {rsizes}, expected the union {sorted(want)} of the operand dims', {})]
+    for idx in _all_indices(rdims, rsizes):
+        got = vals[tuple(idx[d] for d in rdims)]
+        bad = _check_q_point(float(w.at(idx)), 'float64', 'angstrom', bi.at(idx), bf.at(idx), got)
+        if bad:
+            return [(bad[0][0], f'operand dims wavelength={w.dims} incident={bi.dims} scattered={bf.dims} ({pattern}), element {idx}: '
+                     + bad[0][1], dict(bad[0][2], index=idx))]
+    return []
+
+
+def q_shape_witness(pattern, sizes, w, bi, bf):
+    return {'op': 'qel-shape', 'pattern': pattern, 'sizes': sizes, 'w': w.witness(), 'bi': bi.witness(), 'bf': bf.witness()}
+
+
+HKL_SHAPE_PATTERNS = ['all-0d', 'q-per-pixel', 'goniometer-scan', 'per-run-crystal', 'outer-product', 'transposed', 'random', 'random']
+
+
+def gen_hkl_shapes(rng):
+    """Q_vec, ub_matrix, sample_rotation with independently chosen dims"""
+    pattern = rng.choice(HKL_SHAPE_PATTERNS)
+    sizes = {d: rng.randint(1, 3) for d in ('pixel', 'run', 'scan')}
+    tr = {'q': False, 'ub': False, 'r': False}
+    if pattern == 'all-0d':
+        dq, du, dr = [], [], []
+    elif pattern == 'q-per-pixel':
+        dq, du, dr = ['pixel'], [], []
+    elif pattern == 'goniometer-scan':          # one crystal, R per scan point, Q per pixel (or 0-d)
+        dq, du, dr = rng.choice([['pixel'], []]), [], ['scan']
+    elif pattern == 'per-run-crystal':
+        dq, du, dr = ['run', 'pixel'], ['run'], rng.choice([[], ['run']])
+    elif pattern == 'outer-product':
+        dq, du, dr = ['pixel'], ['run'], ['scan']
+    elif pattern == 'transposed':
+        dq, du, dr = ['pixel', 'run'], ['run', 'scan'], ['scan', 'run']
+        tr = {'q': True, 'ub': rng.random() < 0.5, 'r': rng.random() < 0.5}
+    else:
+        dq, du, dr = _subset(rng, ['pixel', 'run', 'scan']), _subset(rng, ['run', 'scan']), _subset(rng, ['run', 'scan'])
+        tr = {k: rng.random() < 0.3 for k in tr}
+
+    def n_of(dims):
+        shape = [sizes[d] for d in dims]
+        return shape, (int(np.prod(shape)) if shape else 1)
+
+    shq, nq = n_of(dq)
+    qv = np.array([rand_dir(rng) * lu(rng, 0.01, 100) for _ in range(nq)]).reshape([*shq, 3])
+    shu, nu = n_of(du)
+    ubs = np.array([rot_matrix(rand_quat(rng)) @ b_matrix(rng)[0] for _ in range(nu)]).reshape([*shu, 3, 3])
+    shr, nr = n_of(dr)
+    quats = np.array([rand_quat(rng) for _ in range(nr)])
+    rms = np.array([rot_matrix(q) for q in quats]).reshape([*shr, 3, 3])
+    r_rot = rng.random() < 0.5
+    q = _mk_operand('vector', dq, sizes, qv if dq else qv.reshape(3), '1/angstrom', tr['q'])
+    ub = _mk_operand('matrix', du, sizes, ubs if du else ubs.reshape(3, 3), '1/angstrom', tr['ub'])
+    if r_rot:
+        r = _mk_operand('rotation', dr, sizes, rms if dr else rms.reshape(3, 3), None, tr['r'],
+                        quats=quats.reshape([*shr, 4]) if dr else quats.reshape(4))
+    else:
+        r = _mk_operand('matrix', dr, sizes, rms if dr else rms.reshape(3, 3), 'dimensionless', tr['r'])
+    return pattern, sizes, q, ub, r
+
+
+def eval_hkl_shapes(q, ub, r):
+    from scippneutron.conversion import tof as K
+
+    try:
+        h = K.hkl_vec_from_Q_vec(Q_vec=q.var, ub_matrix=ub.var, sample_rotation=r.var)
+    except Exception as e:  # noqa: BLE001
+        return _err(e)
+    rdims, rsizes = list(h.dims), dict(h.sizes)
+    vals = np.asarray(h.values, dtype=np.float64)
+    return rdims, rsizes, {tuple(i[d] for d in rdims): (vals[tuple(i[d] for d in rdims)] if rdims else vals)
+                           for i in _all_indices(rdims, rsizes)}
+
+
+def judge_hkl_shapes(pattern, sizes, q, ub, r):
+    res = eval_hkl_shapes(q, ub, r)
+    if isinstance(res, str):
+        return [('C08:hkl-raises', f'hkl_vec_from_Q_vec raised {res} for operand dims {q.dims}/{ub.dims}/{r.dims}', {})]
+    rdims, rsizes, vals = res
+    want = set(q.dims) | set(ub.dims) | set(r.dims)
+    if set(rdims) != want or any(rsizes[d] != sizes[d] for d in rdims):
+        return [('C08:hkl-shape', f'result dims {rdims} {rsizes}, expected the union {sorted(want)} of the operand dims', {})]
+    for idx in _all_indices(rdims, rsizes):
+        j = _judge_hkl(q.at(idx), ub.at(idx), r.at(idx), vals[tuple(idx[d] for d in rdims)])
+        if j:
+            return [(j[0], f'operand dims Q={q.dims} UB={ub.dims} R={r.dims} ({pattern}), element {idx}: ' + j[1], {'index': idx})]
+    return []
+
+
+def _oracle_shapes(ctx, n):
+    rng = ctx.rng
+    for _ in range(n):
+        pattern, sizes, w, bi, bf = gen_q_shapes(rng)
+        ctx.count('oracle-shape:q:' + pattern)
+        wit = q_shape_witness(pattern, sizes, w, bi, bf)
+        ctx.case(('oracle-q-shape', pattern, tuple(w.dims), tuple(bi.dims), tuple(bf.dims), tuple(wit['bf']['values'][:3]), tuple(wit['w']['values'][:1])), True)
+        for key, what, ex in judge_q_shapes(pattern, sizes, w, bi, bf):
+            ctx.violation(key, what, dict(wit, **ex))
+    for _ in range(n):
+        pattern, sizes, q, ub, r = gen_hkl_shapes(rng)
+        ctx.count('oracle-shape:hkl:' + pattern)
+        wit = {'op': 'hkl-shape', 'pattern': pattern, 'sizes': sizes, 'q': q.witness(), 'ub': ub.witness(), 'r': r.witness(),
+               'r_is_rotation3': str(r.var.dtype) == 'rotation3'}
+        ctx.case(('oracle-hkl-shape', pattern, tuple(q.dims), tuple(ub.dims), tuple(r.dims), tuple(wit['q']['values'][:3])), True)
+        for key, what, ex in judge_hkl_shapes(pattern, sizes, q, ub, r):
+            ctx.violation(key, what, dict(wit, **ex))
+
+
 def oracle(ctx, deep):
     getcontext().prec = 60
     _oracle_corpus(ctx)
@@ -1152,6 +1447,7 @@ def oracle(ctx, deep):
         _oracle_hkl(ctx, 1500)
         _oracle_hkl_arrays(ctx, 100)
         _oracle_sequences(ctx, 400)
+        _oracle_shapes(ctx, 300)
         _oracle_split(ctx, 800)
         _oracle_graph(ctx, 60)
     else:
@@ -1159,6 +1455,7 @@ def oracle(ctx, deep):
         _oracle_hkl(ctx, ctx.n(3000, 100000))
         _oracle_hkl_arrays(ctx, ctx.n(150, 3000))
         _oracle_sequences(ctx, ctx.n(400, 8000))
+        _oracle_shapes(ctx, ctx.n(400, 8000))
         _oracle_split(ctx, ctx.n(1000, 15000))
         _oracle_graph(ctx, ctx.n(150, 3000))
 
@@ -1185,6 +1482,13 @@ def replay(ctx, payload):
         for k, what, _ in found:
             print(k, '-', what)
         return bool(found) or any(not mt[1] for mt in res[1])
+    if op == 'qel-shape':
+        sizes = w['sizes']
+        found = judge_q_shapes(w['pattern'], sizes, operand_from_witness('scalar', w['w'], 'angstrom'),
+                               operand_from_witness('vector', w['bi'], 'm'), operand_from_witness('vector', w['bf'], 'm'))
+        for k, what, _ in found:
+            print(k, '-', what)
+        return bool(found)
     if op == 'hkl-seq':
         found = judge_hkl_sequence(calls_from_witness(w))
         for what, i in found:
